@@ -430,7 +430,11 @@ func report(o *options, all []*hstate, known map[string]string, overlay map[stri
 			broken = append(broken, fmt.Sprintf("%s[%s]: no path completed (vacuous) statuses=%v reasons=%v", h.H.Name, h.Config, h.Status, topReasons(h.Reasons, 3)))
 		}
 		var reached, checked []string
-		for k := range h.Reached {
+		for k, n := range h.Reached {
+			if strings.HasPrefix(k, "!unknown:") {
+				v.inconcl = append(v.inconcl, fmt.Sprintf("INCONCLUSIVE: property=%s harness=%s assert=%s undecided on %d path(s): solver returned unknown/timeout (reduce the bound)", o.prop, h.H.Name, strings.TrimPrefix(k, "!unknown:"), n))
+				continue
+			}
 			reached = append(reached, k)
 		}
 		sort.Strings(reached)
